@@ -1382,9 +1382,15 @@ class Container:
                         small.append(row)
                 rest = [column for column in range(n + 1) if column not in small]
                 if small:
+                    # (scaled so that every unknown and every row is of the order of one: a trace in moles next to an
+                    # enzyme in activity units spans twenty orders of magnitude, and the pivoting would go by the units)
+                    columns = numpy.abs(xs[small])
+                    columns[columns == 0] = 1.
+                    block = a[numpy.ix_(small, small)] * columns
+                    rows = numpy.abs(numpy.diag(block))
                     try:
-                        xs[small] = numpy.linalg.solve(a[numpy.ix_(small, small)],
-                                                       -a[numpy.ix_(small, rest)] @ xs[rest])
+                        xs[small] = columns * numpy.linalg.solve(block / rows[:, None],
+                                                                 (-a[numpy.ix_(small, rest)] @ xs[rest]) / rows)
                     except numpy.linalg.LinAlgError:
                         break
         if any(x <= 0 for x in xs):
